@@ -2,7 +2,7 @@
     [rg] = the nested run_step_groups (re-entered by call/jump), [rp] = the nested pipeline
     run (pype): every theorem holds for ALL behaviours of nested calls, all step lists, all
     states — i.e. for every pipeline definition and every nesting depth. *)
-From PV Require Import Engine EngineProofs.
+From PV Require Import Engine EngineProofs Ctl Control CtlProofs.
 Open Scope string_scope.
 Notation RG := (list val -> option string -> option string -> st -> R).
 Notation RP := (string -> option (list string) -> option (list val) -> option string -> option string -> st -> R).
@@ -58,7 +58,8 @@ Theorem C01_failure_routing : forall lib (rg : RG) (rp : RP) g gs names success 
   groups_body lib rg rp (g :: gs) success (Some fg) s =
   match run_group lib rg rp fg true s1 with
   | (ORaise (RSig SStopStepGroup), s2) => (OOk, s2)
-  | (ORaise (RSig sg), s2) => (ORaise (RSig sg), s2)
+  | (ORaise (RSig SStop), s2) => (ORaise (RSig SStop), s2)
+  | (ORaise (RSig SStopPipeline), s2) => (ORaise (RSig SStopPipeline), s2)
   | (OUnsup, s2) => (OUnsup, s2)
   | (_, s2) => (ORaise (RExn n m e), s2)
   end.
@@ -156,3 +157,23 @@ Example C01_nonvacuous :
   tags r = [VStr "a"; VStr "handler"] /\
   fst r = ORaise (RExn "ValueError" "boom" 0).
 Proof. vm_compute. split; reflexivity. Qed.
+
+(** * Tie B: the routing ladder READ FROM THE SOURCE is the model's ladder.
+    [gen_run_step_groups] is generated on every run by tools/py2coq_ctl.py from the statements of
+    [StepsRunner.run_step_groups] (and, through it, run_step_group, run_failure_step_group,
+    run_pipeline_steps, get_pipeline_steps, and the class table of pypyr/errors.py).  For every
+    library, every behaviour of nested calls that keeps the call stack balanced, every group list
+    and every state, it computes exactly [groups_body], about which the theorems above speak. *)
+Theorem C01_source_ladder_is_model : forall lib (rg : RG) (rp : RP),
+  (forall gs su fa, good (rg gs su fa)) -> (forall n pr gs su fa, good (rp n pr gs su fa)) ->
+  forall names groups success failure s,
+  names_of groups = Some names ->
+  gen_run_step_groups (run_step rg rp) rg (pipeline_of lib s) names success failure s
+  = groups_body lib rg rp groups success failure s.
+Proof. exact gen_run_step_groups_is_model. Qed.
+Print Assumptions C01_source_ladder_is_model.
+
+Theorem C01_source_step_loop_is_model : forall (rg : RG) (rp : RP) steps s,
+  gen_run_pipeline_steps (run_step rg rp) steps s = run_steps rg rp (steps_or_nil steps) s.
+Proof. exact gen_run_pipeline_steps_is_model. Qed.
+Print Assumptions C01_source_step_loop_is_model.
